@@ -40,6 +40,7 @@ type Smt struct {
 	tags     map[string]int
 	tagTypes []types.Type
 	ufs      map[string]bool
+	witFns   map[string]string // witness functions of existentials nested in universals
 	fieldIDs map[string]int
 	eng      *Engine
 	defCache map[string]string
@@ -72,13 +73,13 @@ func newSmt(eng *Engine, intMode bool) *Smt {
 	if intMode {
 		s.prelude = append(s.prelude,
 			"(define-fun wfslice ((s Slice)) Bool (and (<= 0 (slen s)) (<= (slen s) (scap s)) (<= (scap s) 281474976710656) (<= 0 (soff s)) (<= (soff s) 281474976710656) (=> (= (sbase s) nil) (= (scap s) 0))))",
-			"(define-fun wfstr ((s Str)) Bool (and (<= 0 (strlen s)) (<= (strlen s) 281474976710656)))",
+			"(define-fun wfstr ((s Str)) Bool (and (<= 0 (strlen s)) (<= (strlen s) 281474976710656) (=> (= (strlen s) 0) (= s str_empty))))", // the only string of length 0 is ""
 			"(define-fun go_rem ((x Int) (y Int)) Int (ite (>= x 0) (mod x y) (- (mod (- x) y))))",
 			"(define-fun go_quo ((x Int) (y Int)) Int (ite (>= x 0) (div x y) (- (div (- x) y))))")
 	} else {
 		s.prelude = append(s.prelude,
 			"(define-fun wfslice ((s Slice)) Bool (and (bvsle (_ bv0 64) (slen s)) (bvsle (slen s) (scap s)) (bvsle (scap s) (_ bv281474976710656 64)) (bvsle (_ bv0 64) (soff s)) (bvsle (soff s) (_ bv281474976710656 64)) (=> (= (sbase s) nil) (= (scap s) (_ bv0 64)))))",
-			"(define-fun wfstr ((s Str)) Bool (and (bvsle (_ bv0 64) (strlen s)) (bvsle (strlen s) (_ bv281474976710656 64))))")
+			"(define-fun wfstr ((s Str)) Bool (and (bvsle (_ bv0 64) (strlen s)) (bvsle (strlen s) (_ bv281474976710656 64)) (=> (= (strlen s) (_ bv0 64)) (= s str_empty))))")
 	}
 	s.prelude = append(s.prelude, fmt.Sprintf("(assert (= (strlen str_empty) %s))", s.intLit(big.NewInt(0), 64)))
 	return s
